@@ -71,6 +71,20 @@ def cases(rng, tier):
         for extra in (1, 12):
             esis = rng.shuffle(CG.block_esis(rng, k, extra, rng.choice([0.3, 0.6])))
             cs.append(CG.sbd_case(rng, k, t, nsub, al, rng.choice([0, 1, 251]), [esis], pos_data(k * t)))
+    # oracle-only cases (not run through the model): the add_new_packet / get_result API on objects with unequal
+    # blocks, and objects with more than 65535 symbols in total (many blocks), source packets vs the Spec layout
+    cases.extra = []
+    for _ in range(40 if tier == "quick" else 400):
+        al = rng.choice([1, 2, 4])
+        t = al * rng.range(1, 6)
+        z = rng.range(2, 9)
+        kt = z * rng.range(1, 6) + rng.range(1, z - 1)          # Kt not divisible by Z
+        f = kt * t - rng.below(t)
+        nsub = rng.range(1, t // al)
+        cases.extra.append(C.Case("layout_roundtrip_api", [f, t, z, nsub, al, rng.below(80)] + pos_data(f), tag="api"))
+    for (kt, t, z) in ([(66001, 1, 255), (65536, 1, 254), (65537, 2, 200)] if tier == "quick" else [(66001, 1, 255), (65536, 1, 254), (65537, 2, 200), (131073, 1, 255), (70000, 4, 9)]):
+        f = kt * t - (t - 1 if t > 1 else 0)
+        cases.extra.append(C.Case("layout_packets", [f, t, z, 1, 1] + pos_data(f), tag="manysyms"))
     # malformed stream: Al does not divide T, Z = 0, N = 0, N > T/Al
     for (f, t, z, nsub, al) in [(100, 10, 1, 1, 4), (100, 8, 0, 1, 1), (100, 8, 1, 0, 1), (100, 8, 1, 9, 1), (100, 8, 1, 5, 2), (50, 8, 9, 1, 1)]:
         cs.append(C.Case("layout_packets", [f, t, z, nsub, al] + pos_data(f), tag="malformed"))
@@ -102,6 +116,26 @@ def evaluate(cases, rep, tier):
             tok = i.split()
             if tok[:2] == ["1", "1"] and [int(x) for x in tok[2:]] != c.args[-k * t:]:
                 counter.append({"input": c.impl_line()[:700], "expected": "the block bytes (lost symbols rebuilt and un-interleaved)", "observed": " ".join(tok[2:40]), "oracle": "decoder inverts the layout for rebuilt symbols"})
+    extra = getattr(globals()["cases"], "extra", [])
+    api = [c for c in extra if c.tag == "api"]
+    for prof in PROFILES:
+        for c, r in zip(api, C.run_impl(api, prof)):
+            f = c.args[0]
+            want = "1 1" + "".join(f" {b}" for b in c.args[6:6 + f])
+            if r != want:
+                counter.append({"input": c.impl_line(), "expected": "the original object from get_result()", "observed": r[:400], "profile": prof, "oracle": "decoder inverts the layout (add_new_packet / get_result)"})
+                break
+    many = [c for c in extra if c.tag == "manysyms"]
+    mi = C.run_impl_crashsafe(many, "release", chunk=1, timeout=900)
+    # the Spec index function costs O(F^2) to evaluate on these sizes: screen with the model's layout (proved equal
+    # to the Spec, C05_packets_are_rfc) and evaluate the Spec itself only on a case that differs
+    mm = C.run_model(many)
+    for c, i, mo in zip(many, mi, mm):
+        if C.canon(i) == C.canon(mo):
+            continue
+        sp = C.run_model([C.Case("spec_layout_packets", c.args)])[0]
+        if C.canon(i) != C.canon(sp):
+            counter.append({"input": " ".join(c.impl_line().split()[:6]) + " <position-coded data: byte i = (i*167+13) mod 251>", "expected": "source packets of RFC 4.4.1.2 (%d tokens): %s" % (len(sp.split()), sp[:200]), "observed": "(%d tokens) %s" % (len(i.split()), i[:200]), "oracle": "Spec.Layout, object with more than 65535 symbols"})
     cases = [c for c in cases if c.fn != "sbd_hist"] + []
     nt = len(set(c.key() for c in cases if in_domain(c) and (c.args[2] > 1 or c.args[3] > 1 or c.args[0] % c.args[1])))
     dist = {"Z>1": sum(1 for c in cases if c.args[2] > 1), "N>1": sum(1 for c in cases if c.args[3] > 1),
@@ -109,7 +143,7 @@ def evaluate(cases, rep, tier):
     return {"disagreements": dis, "counterexamples": counter,
             "stats": {"evaluations": len(cases) * 4 + len(sc), "distinct_nontrivial": nt,
                       "samples": [" ".join(cases[0].impl_line().split()[:6]) + " <991 data bytes> -> " + impl[0][:120]],
-                      "input_distribution": dist}}
+                      "get_result_api_cases": len(api), "objects_over_65535_symbols": len(many), "input_distribution": dist}}
 
 
 def kernel_ok(c):
